@@ -205,6 +205,7 @@ def run(ctx):
                construct='rows at ' + U(stmt)[:60])
     ctx.floor('generator call sites', n_sites, 3)
     check_private_counts(ctx, fi, G, counts, sites, group_sites, be)
+    check_model_unchanged(ctx, fi)
     check_conditioning(ctx, fi, be)
 
 
@@ -561,6 +562,32 @@ def check_conditioning(ctx, fi, be):
     ok = init is not None and first is not None and T(init) in ('{%s}' % T(first), 'set([%s])' % T(first), 'set((%s,))' % T(first))
     ctx.ob('conditioning', fi, loop, ok, 'the set of generated columns starts as exactly the first generated column; starts as `%s`'
            % (U(init) if init is not None else None), construct='initial set of generated columns')
+
+
+def check_model_unchanged(ctx, fi):
+    """generating records reads the model; every in-place site of synthetic_data acts on objects of this call (E2 origin analysis): a
+    mutation of the model's own state (its elimination order, cliques, cached marginals) changes what the next call generates"""
+    from ..engines.alias import Scope
+    GM_ = 'src/mbi/graphical_model.py'
+    scope = Scope(ctx.repo, [GM_, 'src/mbi/clique_vector.py', 'src/mbi/factor.py', 'src/mbi/domain.py', 'src/mbi/dataset.py'],
+                  {'potentials': 'cv', 'marginals': 'cv'})
+    scope.solve()
+    summ = scope.summaries.get((GM_, 'GraphicalModel.synthetic_data'))
+    if summ is None:
+        raise AnalysisError('synthetic_data: no origin summary')
+    seen = set()
+    n = 0
+    for site in summ.sites:
+        k = (getattr(site.node, 'lineno', 0), getattr(site.node, 'col_offset', 0), site.what)
+        if k in seen:
+            continue
+        seen.add(k)
+        n += 1
+        bad = sorted(t for t in site.origins if t.startswith(('S:', 'P:', 'Pe:')) and not t.endswith(':self'))
+        ctx.ob('model-unchanged', fi, site.node, not bad,
+               '%s acts on %s' % (site.what, 'objects of this call' if not bad else
+                                  'the model\'s own state (%s): the next call on the same model generates from the modified state' % ', '.join(bad)))
+    ctx.floor('in-place sites in synthetic_data', n, 2)
 
 
 def check_private_counts(ctx, fi, G, counts, sites, group_sites, be):
